@@ -87,6 +87,7 @@ static const SeedInfo SEEDS[] = {
     {"S18b", "fan of 3 tets, middle cell and a middle face deleted", 1, 1, 0},
     {"S18c", "two tets + extras, last vertex, last edge, last face, last cell deleted", 1, 1, 0},
     {"S19", "three triangles on one common edge (non-manifold edge) + one tet on one of them", 1, 1, 0},
+    {"S20", "two tets on the SAME halfface (non-manifold, built without topology check) + a regular neighbour (C17 only)", 1, 1, 0},
 };
 static const int N_SEEDS = sizeof(SEEDS) / sizeof(SEEDS[0]);
 
@@ -187,6 +188,8 @@ inline bool build_seed(Sys &s, const std::string &name) {
         m.delete_vertex(VertexHandle((int)m.n_vertices() - 1));
     } else if (name == "S19") {
         b.Vn(6); b.HF({0, 1, 2}); b.HF({0, 1, 3}); b.HF({1, 0, 4}); b.tet(0, 1, 2, 5);
+    } else if (name == "S20") {
+        b.Vn(6); b.tet(0, 1, 2, 3); b.tet(0, 1, 2, 4); b.tet(0, 2, 1, 5);
     } else
         return false;
     s.label_new();
